@@ -312,6 +312,50 @@ def run(ctx):
                         % (base2.rsplit('::', 1)[1], m), ctx.where(B2, bb), key='WHO:%s:pending_rpcs.%s' % (base2, m))
     ctx.anchor(n_acc >= 3, 'accesses to pending_rpcs')
 
+    # a reply can only be matched to its call if the receiver still reads frames where the peer wrote them: the receiver-side
+    # rules of C19 that keep the stream in step (and the connection table free for deregistration) are re-run here
+    ctx.rule('C17.1-receiver-in-step', 'replies are taken from frames the peer sent as frames: after an error that leaves a frame body unread the receiver stops instead of parsing the body as frames, '
+             'and no call holds a guard of the connection table while it waits for its reply (rules C19.3-sync-after-error and C19.4-table-guard-scope re-run)', floor=1)
+    from . import c19 as _c19
+    _c19.run(_Sub(ctx, 'C17.1-receiver-in-step', 'c19', allow=['C19.3-sync-after-error', 'C19.4-table-guard-scope']))
+
+    # the registration is removed by code that runs after the wait: a future that is dropped in the middle of the wait never gets there
+    ctx.rule('C17.1-not-cancelled-inside', 'inside the node no future of a function that registers an outstanding call (or of a function awaiting one) is handed to tokio::time::timeout, select or abort: '
+             'cancelling it between registration and cleanup leaves the entry (and its sender) in the table for good', floor=0)
+    reg = set()
+    for B3 in P.all('edp_node'):
+        if map_calls(B3, 'pending_rpcs', 'insert'):
+            reg.add(B3.path.split('::{')[0])
+    ctx.anchor(bool(reg), 'a function that inserts into pending_rpcs')
+    # async callers that await a registering function are registering functions themselves
+    changed = True
+    while changed:
+        changed = False
+        for B3 in P.all('edp_node'):
+            base3 = B3.path.split('::{')[0]
+            if base3 in reg:
+                continue
+            if any(n in reg for bb, t in B3.calls() for n in callee_names(t)):
+                reg.add(base3)
+                changed = True
+    # cleanup done by a destructor runs on cancellation too: then wrapping is harmless
+    dtor = [B3.path for B3 in P.all('edp_node') if ' as core::ops::drop::Drop>::drop' in B3.path and map_calls(B3, 'pending_rpcs', 'remove')]
+    n_c = 0
+    for B3 in ([] if dtor else P.all('edp_node')):
+        for bb, t in B3.calls():
+            nm = callee_of(t)[0] or ''
+            if not (nm.startswith('tokio::time::timeout::timeout') or nm.startswith('tokio::time::timeout::timeout_at') or nm.endswith('JoinHandle::<T>::abort') or 'futures_util::future::select' in nm):
+                continue
+            for a in t['args']:
+                o = B3.origin(a)
+                if o and o[0] == 'call' and o[1] in reg:
+                    n_c += 1
+                    ctx.bad('C17.1-not-cancelled-inside', '%s:%s' % (B3.path.split('::{')[0].rsplit('::', 1)[-1], o[1].rsplit('::', 1)[-1]),
+                            'the future of %s (which registers an outstanding call and removes it only after its own wait) is wrapped in %s: when the outer deadline wins, the inner future is dropped and its registration stays in the table'
+                            % (o[1].rsplit('::', 1)[-1], nm.rsplit('::', 1)[-1]), ctx.where(B3, bb), key='PAIR:%s:cancels:%s' % (B3.path.split('::{')[0], o[1].rsplit('::', 1)[-1]))
+    if n_c == 0:
+        ctx.ok('C17.1-not-cancelled-inside', 'edp_node', ('the registration is removed by a destructor (%s)' % dtor[0]) if dtor else 'no registering future (%s) is wrapped in a timeout / select / abort' % ', '.join(sorted(x.rsplit('::', 1)[-1] for x in reg)))
+
 
 def exit_desc(B, bb):
     """line-number-free description of an exit: what error/value it returns"""
